@@ -425,7 +425,7 @@ rle16_fgbg_exact!(c09_rle16_set_fg_fgbg_exact, true);
 /// DITHERED_RUN exact colours and SET_FG_FG_RUN exact foreground, first scanline
 #[kani::proof]
 #[kani::unwind(14)]
-fn c09_rle16_dithered_setfg_exact() {
+fn c09_rle16_pair_setfg_exact() {
     let a: u16 = kani::any();
     let b: u16 = kani::any();
     let fg: u16 = kani::any();
@@ -583,7 +583,7 @@ fn c09_rle16_long_lite_set_fg_run() {
 /// FG_RUN that crosses a scanline end on later scanlines keeps xor-ing with the line above
 #[kani::proof]
 #[kani::unwind(14)]
-fn c09_rle16_fg_run_cross_line() {
+fn c09_rle16_fgrun_cross_line() {
     let a: [u16; 2] = kani::any();
     let input = [0x82u8, a[0] as u8, (a[0] >> 8) as u8, a[1] as u8, (a[1] >> 8) as u8, 0x24];
     let mut out = [0u16; 6];
